@@ -83,7 +83,8 @@ class Scratch:
         base = "/dev/shm" if os.path.isdir("/dev/shm") else tempfile.gettempdir()
         self.dir = tempfile.mkdtemp(prefix="mrv-%s-%d-" % (tag, os.getpid()), dir=base)
         self.ports = []
-        self.pgids = set()
+        self.pgids = set()  # informational only
+        self.popens = []
         self.owner = os.getpid()
         _ALL.append(self)
 
@@ -102,11 +103,21 @@ class Scratch:
     def cleanup(self):
         if os.getpid() != self.owner:
             return
-        for pg in list(self.pgids):
+        # Only processes we still own (started by us and not yet reaped) are signalled: their pid is
+        # then guaranteed not to have been reused. Killing remembered pids/pgids blindly is unsafe
+        # here - pid_max is 32768 and the explorers spawn thousands of processes, so numbers wrap
+        # within minutes and a stale pgid can belong to an unrelated live process.
+        for p in list(self.popens):
             try:
-                os.killpg(pg, signal.SIGKILL)
-            except (ProcessLookupError, PermissionError):
+                if p.poll() is None:
+                    try:
+                        os.killpg(p.pid, signal.SIGKILL)
+                    except (ProcessLookupError, PermissionError):
+                        pass
+                    p.wait(timeout=5)
+            except Exception:
                 pass
+        self.popens = []
         for p in self.ports:
             free_port(p)
         self.ports = []
